@@ -79,8 +79,14 @@ def run(ctx):
         cases.append((dgms, keep, vinf, norm, single))
         lines.append("ent %s %s %s %s" % (enc(keep), enc(vinf), enc(norm), enc(dgms)))
     answers = ask(lines)
-    for (dgms, keep, vinf, norm, single), ans in zip(cases, answers):
-        code = canon(run_code(dgms, keep, vinf, norm, single))
+    cov = common.LineCov(["persim/persistent_entropy.py"])
+    ctx.extra["anchored_source_digest"] = {"persim/persistent_entropy.py": common.source_digest("persim/persistent_entropy.py")}
+    for k, ((dgms, keep, vinf, norm, single), ans) in enumerate(zip(cases, answers)):
+        if k < 120:                      # statement coverage of the anchored function on a slice of the run
+            with cov:
+                code = canon(run_code(dgms, keep, vinf, norm, single))
+        else:
+            code = canon(run_code(dgms, keep, vinf, norm, single))
         nontriv = any(sum(1 for b in d if math.isfinite(b[1])) >= 2 for d in dgms)
         ctx.case({"op": "ent", "keep_inf": keep, "val_inf": vinf, "normalize": norm, "dgms": dgms}, nontriv, sample_every=97)
         if isinstance(code, str) or isinstance(ans, str):
@@ -99,6 +105,7 @@ def run(ctx):
                           found_input=bad, correspondence="ent")
             if len(ctx.violations) > 5:
                 return
+    ctx.extra["anchored_statement_coverage"] = cov.summary()
     laws(ctx)
 
 
